@@ -462,6 +462,15 @@ func (in *Interp) load(p AVal, t types.Type, at ssa.Instruction) AVal {
 			}
 			return sv
 		}
+		if len(c.Elems) > 0 && c.T != nil {
+			if _, isArr := c.T.Underlying().(*types.Array); isArr {
+				av := ArrVal{T: c.T}
+				for _, ec := range c.Elems {
+					av.E = append(av.E, in.load(Ptr{C: ec}, ec.T, at))
+				}
+				return av
+			}
+		}
 		if c.V == nil {
 			if c.T != nil {
 				c.V = zeroOf(c.T)
@@ -505,6 +514,21 @@ func (in *Interp) store(p AVal, v AVal, at ssa.Instruction) {
 				fc.V = fv
 				x.C.Fields[i] = fc
 			}
+			return
+		}
+		if av, ok := v.(ArrVal); ok {
+			// array assignment copies element by element
+			var et types.Type
+			if at, ok := av.T.Underlying().(*types.Array); ok {
+				et = at.Elem()
+			}
+			x.C.Elems = nil
+			for _, ev := range av.E {
+				ec := in.newCell(et, "")
+				ec.V = ev
+				x.C.Elems = append(x.C.Elems, ec)
+			}
+			x.C.V = nil
 			return
 		}
 		x.C.V = v
